@@ -573,6 +573,34 @@ func (m *frRun) doReaddir(st frStep) {
 		m.resumed = true
 	}
 	m.checkListing(append(consumed, rest...), st, what)
+	// 3. the same resumption with every buffer size (multiples of 8 bytes) from the largest entry to the
+	// whole listing: the buffer ends after every possible prefix of entries, also where a long name does
+	// not fit any more and a later, shorter one would (small directories only: the sweep is quadratic)
+	if st.N > 0 && st.N <= 24 {
+		total := 0
+		for _, d := range full {
+			total += frDirentLen(d.name)
+		}
+		for size := maxEnt; size <= total+8; size += 8 {
+			if size == bufSize {
+				continue
+			}
+			w := fmt.Sprintf("readdir(%q): %d entries consumed, resumed at offset %d with %d-byte buffers", dir, len(consumed), from, size)
+			r2, c2, ok := m.list(ino, od.Handle, from, size, limit+total/8, w, class)
+			if !ok {
+				return
+			}
+			if c2 > 1 {
+				m.resumed = true
+			}
+			m.r.Extra["readdir_buffer_sizes_swept"]++
+			nbad := len(m.r.Mismatches)
+			m.checkListing(append(append([]frDirent{}, consumed...), r2...), st, w)
+			if len(m.r.Mismatches) > nbad {
+				return
+			}
+		}
+	}
 	// observation only: is the order of the listing the same in both passes?
 	tail := full[len(consumed):]
 	same := len(tail) == len(rest)
